@@ -39,7 +39,7 @@ PROPERTIES = {
         'units': ['utf8', 'escape', 'event', 'event_json', 'tags_json', 'event_parse', 'hexwrite'],
         'kani': ['leaf'], 'kani_quick': ['leaf'],
         'sample_functions': ['Event::as_json', 'Tags::as_json', 'json_escape', 'Event::from_parts', 'Id::write_hex'],
-        'not_decided': ['the re-parse lemma (parsing event_json(view) yields the same bytes) needs the entry-level parser spec of C01 stage 3, which is not stated; proved: Event::as_json == event_json(view) (member order, hex, decimal, NIP-01 escaping) with Tags::as_json == tags_json(view), json_escape == the NIP-01 escape function for every escapable string, from_parts == canonical packing whatever the buffer held, the JSON path zeroes the padding bytes and returns a well-formed event',
+        'not_decided': ['the re-parse lemma jevent(event_json(view)) == view as a statement over the two specs, and byte-identity of the re-parsed event (needs completeness at the entry point and canonicity of the parser output), are not stated; proved: a successfully parsed event satisfies the precondition of as_json (its strings are renderable), parse_json_event is faithful to the object scan jevent, Event::as_json == event_json(view) (member order, hex, decimal, NIP-01 escaping) with Tags::as_json == tags_json(view), json_escape == the NIP-01 escape function for every escapable string, from_parts == canonical packing whatever the buffer held, the JSON path zeroes the padding bytes and returns a well-formed event',
                         'that event_json(view) is accepted by an independent JSON parser is a statement about that parser; the text is given as an explicit spec function to compare against'],
     },
     'C08': {
@@ -61,7 +61,7 @@ PROPERTIES = {
         'units': ['event', 'tags_parts', 'filter_parts', 'tagsjson', 'filter_parse', 'event_parse'],
         'sample_functions': ['Tags::from_parts', 'Filter::from_parts', 'Event::from_parts', 'OwnedTags::new', 'read_tags_array'],
         'not_decided': ['OwnedEvent::sign_new: its packing is OwnedEvent::new (proved); the id/signature it computes are C08 (secp256k1 types are outside the verifier\'s reach)',
-                        'JSON parsers: well-formedness, bounds and refusal of oversized sections are proved; "accessors reproduce exactly the parsed parts" is stage 3 of C01/C07'],
+                        'JSON parsers: well-formedness, bounds, refusal of oversized sections and faithfulness of every accessor view to the text (C01 / C07 clauses of parse_json_event / parse_json_filter) are proved; that every well-formed text within the limits is ACCEPTED (completeness) is proved for the leaves only'],
     },
     'C04': {
         'units': ['map', 'store', 'storelemmas'],
@@ -106,7 +106,8 @@ PROPERTIES = {
     },
     'C03': {
         'units': ['utf8', 'escape', 'lex', 'hexread', 'tagsjson', 'event_parse', 'filter_parse', 'from_json', 'addr', 'hexwrite', 'hll_hex', 'tags', 'event', 'filter'],
-        'sample_functions': ['next_code_point', 'json_unescape', 'read_u64', 'read_id'],
-        'not_decided': [],
+        'sample_functions': ['json_unescape', 'parse_json_event', 'Event::from_json', 'next_code_point', 'read_u64', 'read_id'],
+        'not_decided': ['stack depth of the mutually recursive burn_value / burn_array / burn_object on deeply nested input is not modelled (termination is proved, a stack bound is not)',
+                        'serializer preconditions: every string of a successfully parsed EVENT (and Tags) is proved renderable (escapable), so Event::as_json / Tags::as_json / Event::verify are total on it; likewise the tag values of a successfully parsed FILTER (Filter::as_json). Values built from parts or read from stored bytes carry no such guarantee: json_escape panics on a code point above U+10FFFF (only reachable from invalid UTF-8 given through from_parts)'],
     },
 }
